@@ -180,7 +180,7 @@ def gen_case(rng, pid, uid):
     hist = []
     last = None
     total = 0
-    for _ in range(rng.choice([3, 4, 5, 6, 9]) if rng.random() > 0.01 else 45):       # (rarely: dozens of mode changes)
+    for _ in range(rng.choice([3, 4, 5, 6, 9]) if rng.random() > 0.01 else 110):       # (rarely: more than a hundred mode changes)
         m = rng.choice([x for x in MODES if x != last])
         dw = rng.choice([1, 1, 2, 3, 5, 8, 25]) if pid != "C07" else rng.choice([1, 2, 6, 8, 12])
         if rng.random() < 0.004:
@@ -277,6 +277,33 @@ def gen_case(rng, pid, uid):
                                    for j in range(rng.choice([1, 1, 2]))}
         if pid == "C11" and sites["fb"] and rng.random() < 0.7:
             pool = sites["fb"]
+        if pid in ("C07", "C10") and rng.random() < 0.02:
+            # a fault storm: one callback fails in every iteration of a long stay in one mode (a sensor that went away),
+            # every time with the very same exception object (a failed Future re-raising its stored exception)
+            storm_mode = rng.choice(["auto", "teleop", "teleop", "disabled"])
+            spec["history"] = [[storm_mode, 700]]
+            spec["period_us"] = rng.choice([20000, 50000])
+            spec["fms"] = True
+            spec.pop("fms_changes", None)
+            spec.pop("early_switch", None)
+            cand = [x for x in sites["faultable"] if site_kind(x) in ("execute", "feedback", "robotPeriodic")
+                    or (storm_mode == "auto" and site_kind(x) == "mode.on_iteration")
+                    or (storm_mode == "teleop" and x == "R.teleopPeriodic") or (storm_mode == "disabled" and x == "R.disabledPeriodic")]
+            if storm_mode == "disabled":
+                cand = [x for x in cand if site_kind(x) != "execute"]
+            s_ = rng.choice(cand)
+            if rng.random() < 0.3:
+                # ... or only now and then over a much longer stay: a fault every 12.5 s for a minute and a half
+                spec["history"] = [[storm_mode, 1700]]
+                spec["period_us"] = 50000
+                for i_ in range(0, 1750, 250):
+                    at(s_, i_)["raise"] = rng.choice(["plain", "sameobj"])
+                spec["fault_storm_sparse"] = True
+            else:
+                for i_ in range(0, 720):
+                    at(s_, i_)["raise"] = "sameobj"
+            spec["fault_storm"] = s_
+            return spec
         for _ in range(rng.choice([1, 1, 2, 3])):
             if not pool:
                 break
@@ -1048,10 +1075,14 @@ def run_case(spec, acc):
         V.ev("statemachine-component")
     if spec.get("omit_hooks"):
         V.ev("robot-without-some-mode-hooks")
+    if spec.get("fault_storm"):
+        V.ev("fault-storm:" + site_kind(spec["fault_storm"]))
+    if spec.get("fault_storm_sparse"):
+        V.ev("a-fault-every-12-seconds-for-a-minute-and-a-half")
     if spec.get("uptime_us"):
         V.ev("fpga-time-of-hours")
-    if len(spec["history"]) >= 40:
-        V.ev("dozens-of-mode-changes")
+    if len(spec["history"]) >= 100:
+        V.ev("more-than-a-hundred-mode-changes")
     if len(spec["components"]) > 10:
         V.ev("more-than-ten-components")
     if any(len(c["feedbacks"]) > 32 for c in spec["components"].values()):
